@@ -7,11 +7,12 @@
    Unsup marks inputs outside the modelled fragment (floats in arithmetic,
    glob patterns, hex spellings ...): the correspondence check skips them.
    No proofs here. *)
-From YQ Require Import Base.Str Model.Node Model.Store.
+From YQ Require Import Base.Str Model.Node Model.Store Spec.MergeSpec.
 From Coq Require Import ZArith.
 
 Inductive binop :=
-| OAdd | OSub | OMul | OMod | OEq | ONe | OLt | OLe | OGt | OGe | OAnd | OOr | OAlt | OContains.
+| OAdd | OSub | OMul | OMod | OEq | ONe | OLt | OLe | OGt | OGe | OAnd | OOr | OAlt | OContains
+| OMulF (fl : N).      (* `*` with merge flags: bit 0 `+`, bit 1 `d`, bit 2 `?`, bit 3 `n` *)
 
 Inductive expr :=
 | ESelf
@@ -417,7 +418,9 @@ Definition sub_nodes (st : store) (l r : ptr) : res out :=
       end
   end.
 
-Definition mul_nodes (st : store) (l r : ptr) : res out :=
+(* multiply(): scalars are multiplied; map * map and seq * seq are the deep merge of Spec/MergeSpec.v
+   (None there = the open region of C04: outside the model) *)
+Definition mul_nodes (fl : N) (st : store) (l r : ptr) : res out :=
   let* ln := deref_r st l in
   let* rn := deref_r st r in
   match rn with
@@ -425,7 +428,12 @@ Definition mul_nodes (st : store) (l r : ptr) : res out :=
   | _ =>
       match ln, rn with
       | Scalar lt lv, Scalar rt rv => let* v := mul_scalars lt lv rt rv in one (alloc_repl st l v)
-      | _, _ => Unsup   (* deep merge: Model/Merge.v *)
+      | Map _, Map _ | Seq _, Seq _ =>
+          match merge (flags_of fl) ln rn with
+          | Some m => one (alloc_repl st l m)
+          | None => Unsup
+          end
+      | _, _ => Unsup
       end
   end.
 
@@ -880,7 +888,8 @@ Fixpoint eval (fuel : nat) (e : expr) (ro : bool) (vs : vars) (ctx : list ptr) (
         match o with
         | OAdd => cross ev true no_short add_nodes l r true vs ctx st
         | OSub => cross ev false no_short (lift2 sub_nodes) l r true vs ctx st
-        | OMul => cross ev false no_short (lift2 mul_nodes) l r ro vs ctx st
+        | OMul => cross ev false no_short (lift2 (mul_nodes 0)) l r ro vs ctx st
+        | OMulF fl => cross ev false no_short (lift2 (mul_nodes fl)) l r ro vs ctx st
         | OMod => cross ev false no_short (lift2 mod_nodes) l r true vs ctx st
         | OEq => cross ev true no_short (eq_nodes false) l r ro vs ctx st
         | ONe => cross ev true no_short (eq_nodes true) l r true vs ctx st
